@@ -747,6 +747,23 @@ def literal_cases() -> list[tuple[str, callable]]:
         cs.append((f"Tmpl.Int({('TMPL_A' + t)!r})", _val(lambda t=t: pt.Tmpl.Int("TMPL_A" + t))))
         cs.append((f"Tmpl.Bytes({('TMPL_B' + t)!r})", _val(lambda t=t: pt.Tmpl.Bytes("TMPL_B" + t))))
         cs.append((f"Tmpl.Addr({('TMPL_C' + t)!r})", _val(lambda t=t: pt.Tmpl.Addr("TMPL_C" + t))))
+    # numbers given as Python objects other than plain ints (bool is a subclass of int, IntEnum members, floats with integral
+    # value, numeric strings): refused, or written as a decimal the assembler reads
+    import enum
+
+    class _E(enum.IntEnum):
+        A = 3
+    u = lambda: pt.Btoi(pt.Txn.note())  # noqa: E731
+    for nm, v in (("True", True), ("False", False), ("IntEnum", _E.A), ("1.0", 1.0), ("'7'", "7"), ("2**64", 2 ** 64), ("-1", -1)):
+        cs.append((f"Int({nm})", _val(lambda v=v: pt.Int(v))))
+        cs.append((f"Txn.application_args[{nm}]", _val(lambda v=v: pt.Len(pt.Txn.application_args[v]))))
+        cs.append((f"Gtxn[{nm}].fee", _val(lambda v=v: pt.Gtxn[v].fee())))
+        cs.append((f"Extract(note,Int({nm}),Int(1))", _val(lambda v=v: pt.Len(pt.Extract(pt.Txn.note(), pt.Int(v), pt.Int(1))))))
+        cs.append((f"Substring(note,Int(0),Int({nm}))", _val(lambda v=v: pt.Len(pt.Substring(pt.Txn.note(), pt.Int(0), pt.Int(v))))))
+        cs.append((f"Replace(note,Int({nm}),note)", _val(lambda v=v: pt.Len(pt.Replace(pt.Txn.note(), pt.Int(v), pt.Txn.note())))))
+        cs.append((f"ScratchVar(slot={nm})", (lambda v=v: pt.Seq((x := pt.ScratchVar(pt.TealType.uint64, v)).store(u()), pt.Pop(x.load()), pt.Approve()))))
+        cs.append((f"ImportScratchValue({nm},{nm})", _val(lambda v=v: pt.ImportScratchValue(v, v))))
+        cs.append((f"BytesZero/Int({nm}) in an arithmetic chain", _val(lambda v=v: pt.Int(5) + pt.Int(v) * pt.Int(v))))
     seen, out = set(), []
     for n, th in cs:
         if n not in seen:
